@@ -38,7 +38,7 @@ TEXT = {
              "balance; after the final free-all (LIFO/FIFO/random) the heap must be back at __brkval == arena start "
              "with an empty free list. Heap histories: up to 300 steps, sizes 0..4096 with the boundary sizes of the "
              "statement, at most 90 live blocks; in addition every history of length <= 5 over 4 block slots and of "
-             "length 6 over 3 slots (thorough: <= 6 and 7) with sizes {8,64,200,0} is run. Absence of defects beyond "
+             "length 6 over 3 slots (thorough: <= 6 and 7) with sizes {8,64,200,0} is run. Pools are also run with capacities 250..262, 33..300, 508..516 and the object pool with over-aligned (32/64) and odd-sized (9/12/20 byte) element types. Absence of defects beyond "
              "the explored histories is not established.",
     "note": "Trusted: the harness' shadow model, clang ASan/UBSan, the host's __WORDSIZE (64: the shim rounds every "
             "request up to a multiple of 64 bytes here, so only that granule is exercised). The shim has no "
